@@ -1469,6 +1469,12 @@ class Interp:
                 return fv.extra(ctx, args, kwargs, node)
         if isinstance(fv, VClass):
             return self.instantiate(ctx, fv, args, kwargs, node)
+        if isinstance(fv, VOpaque):
+            h = ctx.hooks.get('opaque_call')
+            if h:
+                r = h(ctx, fv, args, kwargs, node)
+                if r is not None:
+                    return r
         raise Unsupported('call of %r' % (fv,), node)
 
     def instantiate(self, ctx, cv, args, kwargs, node):
